@@ -38,6 +38,7 @@ type Case struct {
 	LinkForm    int    `json:"link_form"`
 	LinkParams  int    `json:"link_params"`
 	LinkN       bool   `json:"link_n"`     // the link carries n=<page size>
+	LinkComma   int    `json:"link_comma"` // bit 1: a literal comma in the target URI; bit 2: a quoted link parameter holding a comma
 	LinkExtra   int    `json:"link_extra"` // 0 none, 1 optional extra parameter, 2 extra parameter the registry insists on
 	RawSlash    bool   `json:"raw_slash"`  // '/' and ':' left unescaped in the link's query
 	CursorFirst bool   `json:"cursor_first"`
@@ -105,6 +106,7 @@ type script struct {
 	finished   bool
 	afterFinal int
 	filterOn   bool
+	filterVal  string
 	seqKeys    []string
 	seqRefs    []ocispec.Descriptor
 	maxReq     int
@@ -266,9 +268,11 @@ func (s *script) list(w http.ResponseWriter, r *http.Request, rec *served) {
 	if ord == 0 {
 		// the registry's sequence for this listing
 		if isRef {
-			s.filterOn = c.Filter != "" && c.FilterMode != "none" && q.Get("artifactType") == c.Filter
+			// a filtering registry filters on the value it received (decoded the way net/url decodes a query)
+			s.filterVal = q.Get("artifactType")
+			s.filterOn = c.FilterMode != "none" && s.filterVal != ""
 			for _, d := range c.Refs {
-				if s.filterOn && d.ArtifactType != c.Filter {
+				if s.filterOn && d.ArtifactType != s.filterVal {
 					continue
 				}
 				s.seqRefs = append(s.seqRefs, d)
@@ -388,6 +392,9 @@ func (s *script) list(w http.ResponseWriter, r *http.Request, rec *served) {
 			if c.RawSlash {
 				e = strings.NewReplacer("%2F", "/", "%3A", ":").Replace(e)
 			}
+			if c.LinkComma&1 != 0 {
+				e = strings.ReplaceAll(e, "%2C", ",")
+			}
 			parts = append(parts, k+"="+e)
 		}
 		if curName != "" && c.CursorFirst {
@@ -399,6 +406,9 @@ func (s *script) list(w http.ResponseWriter, r *http.Request, rec *served) {
 		if c.LinkExtra > 0 {
 			add(extraName, extraValue)
 		}
+		if c.LinkComma&1 != 0 {
+			add("token", "17,b")
+		}
 		if isRef && c.Filter != "" && ord%2 == 0 {
 			add("artifactType", c.Filter)
 		}
@@ -408,6 +418,9 @@ func (s *script) list(w http.ResponseWriter, r *http.Request, rec *served) {
 		query := strings.Join(parts, "&")
 		target := s.linkTarget(r, query)
 		params := []string{`; rel="next"`, `;rel=next`, `; rel="next"; type="application/json"`, `  ;   rel="next"`, `; title="more items"; rel="next"`}[c.LinkParams%5]
+		if c.LinkComma&2 != 0 {
+			params = `; title="first page, unfiltered"` + params
+		}
 		link := "<" + target + ">" + params
 		if c.LinkParams >= 5 {
 			// two links in one field, the next link first
